@@ -340,6 +340,9 @@ CHOICE_decode_ber(const asn_codec_ctx_t *opt_codec_ctx,
 					ADVANCE(2);
 					ctx->left++;
 					continue;
+				} else {
+					/* <0><non-zero> is not an end-of-contents */
+					RETURN(RC_FAIL);
 				}
 			} else {
 				ASN_DEBUG("Unexpected continuation in %s",
